@@ -14,7 +14,8 @@ open CueVerif
 theorem basePrecision_eq : Gen.C06.basePrecision = Arith.prec := by decide
 /-- … and is declared without a Rounding (apd default: half up, as `Arith.round`) -/
 theorem baseContextSrc_eq : Gen.C06.baseContextSrc = "Context{*apd.BaseContext.WithPrecision(34)}" := by decide
-/-- the literal package multiplies by SI/IEC multipliers at the same precision -/
+/-- the literal package's own context (now only used for `RoundToIntegralExact`, which does not
+depend on the precision) -/
 theorem litPrecision_eq : Gen.C06.litPrecision = Arith.prec := by decide
 theorem litContextAssigns_eq :
     Gen.C06.litContextAssigns = ["baseContext = apd.BaseContext", "baseContext.Precision = 34"] := by decide
@@ -80,6 +81,10 @@ digits): the model's `litExp = none ↦ .err` and `bareZeroMul ↦ .err` (since 
 theorem unmarshalStmt_eq : Gen.C06.unmarshalStmt =
     "if err := v.UnmarshalText(p.buf); err != nil { return p.errorf(\"invalid number: %v\", err) }" := by decide
 
+/-- the multiplier product is computed with apd's unlimited-precision context: exact, as
+`NumVal.decValue` (`Dec.mul`, no rounding) since /repo 06ced89 -/
+theorem mulCall_eq : Gen.C06.mulCall = "apd.BaseContext.Mul(v, v, mulToRat[p.mul])" := by decide
+
 theorem mulValue_eq (i : Nat) : NumVal.mulValue i false = 1000 ^ i ∧ NumVal.mulValue i true = 1024 ^ i := by
   simp [NumVal.mulValue]
 
@@ -100,22 +105,22 @@ theorem pin_adt_UnaryExpr_evaluate : Gen.C06.pin_adt_UnaryExpr_evaluate = "ad144
 theorem pin_adt_Num_Cmp : Gen.C06.pin_adt_Num_Cmp = "795f4e83ae9b565c" := by decide
 theorem pin_internal_reduceKeepingFloats : Gen.C06.pin_internal_reduceKeepingFloats = "9706c7d675af4cbc" := by decide
 theorem pin_internal_Context_Quo : Gen.C06.pin_internal_Context_Quo = "aa11236fac125b0d" := by decide
-theorem pin_literal_NumInfo_decimal : Gen.C06.pin_literal_NumInfo_decimal = "86ad380582be13ad" := by decide
+theorem pin_literal_NumInfo_decimal : Gen.C06.pin_literal_NumInfo_decimal = "aca1b0e83663d828" := by decide
 theorem pin_literal_ParseNum : Gen.C06.pin_literal_ParseNum = "f62ad6ae0fe132dc" := by decide
-theorem pin_literal_NumInfo_scanNumber : Gen.C06.pin_literal_NumInfo_scanNumber = "225e8ba521fd787b" := by decide
+theorem pin_literal_NumInfo_scanNumber : Gen.C06.pin_literal_NumInfo_scanNumber = "a20a9ef43ec46211" := by decide
 theorem pin_literal_NumInfo_scanMantissa : Gen.C06.pin_literal_NumInfo_scanMantissa = "8f02c5a2db5ecd93" := by decide
 theorem pin_literal_NumInfo_next : Gen.C06.pin_literal_NumInfo_next = "fec08a8bae3fc87b" := by decide
 theorem pin_compile_intDivOp : Gen.C06.pin_compile_intDivOp = "01f89247371afec8" := by decide
 theorem pin_compile_compiler_parse : Gen.C06.pin_compile_compiler_parse = "903a4b0507a82bf6" := by decide
 theorem pin_export_exporter_num : Gen.C06.pin_export_exporter_num = "0b799d352730a988" := by decide
-theorem pin_math_Floor : Gen.C06.pin_math_Floor = "88a0e4fde71582a3" := by decide
-theorem pin_math_Ceil : Gen.C06.pin_math_Ceil = "f6594cbe73802982" := by decide
+theorem pin_math_Floor : Gen.C06.pin_math_Floor = "51c4ecb8ebe6f19d" := by decide
+theorem pin_math_Ceil : Gen.C06.pin_math_Ceil = "95a32502de5b776c" := by decide
 theorem pin_math_Trunc : Gen.C06.pin_math_Trunc = "0fc44e1df060b560" := by decide
 theorem pin_math_Round : Gen.C06.pin_math_Round = "52eb66d1a6d0b8c7" := by decide
 theorem pin_math_RoundToEven : Gen.C06.pin_math_RoundToEven = "fd426251360f32a1" := by decide
 theorem pin_math_toInt : Gen.C06.pin_math_toInt = "ad39c1aba6704d06" := by decide
 theorem pin_math_MultipleOf : Gen.C06.pin_math_MultipleOf = "6cbea9504170d2e1" := by decide
-theorem pin_math_Abs : Gen.C06.pin_math_Abs = "4d16f32554e1225d" := by decide
+theorem pin_math_Abs : Gen.C06.pin_math_Abs = "afb397890ef3c937" := by decide
 theorem pin_math_Pow : Gen.C06.pin_math_Pow = "7c0c1a1a648594ca" := by decide
 
 end CueVerif.Bridge.C06
